@@ -125,6 +125,80 @@ def extract(config='default'):
         lock.close()
 
 
+def dep_source(repo, pkg):
+    """(lib.rs path, edition, version) of the dependency `pkg` as resolved for the current tree (cargo metadata, offline)"""
+    import json
+    r = subprocess.run(['cargo', 'metadata', '--offline', '--format-version', '1'], cwd=repo, env=env_base(),
+                       stdout=subprocess.PIPE, stderr=subprocess.PIPE, text=True)
+    if r.returncode != 0:
+        raise ExtractError('cargo metadata failed: %s' % r.stderr[-1500:])
+    md = json.loads(r.stdout)
+    # the version that the root package's resolve graph actually uses
+    root = (md.get('resolve') or {}).get('root')
+    used = None
+    for node in (md.get('resolve') or {}).get('nodes', []):
+        if node['id'] == root:
+            for d in node.get('deps', []):
+                if d.get('name', '').replace('-', '_') == pkg.replace('-', '_'):
+                    used = d['pkg']
+    cands = [p for p in md['packages'] if p['name'] == pkg and (used is None or p['id'] == used)]
+    if len(cands) != 1:
+        raise ExtractError('dependency %s: %d candidate packages in cargo metadata' % (pkg, len(cands)))
+    p0 = cands[0]
+    libs = [t for t in p0['targets'] if 'lib' in t['kind']]
+    if len(libs) != 1:
+        raise ExtractError('dependency %s has no single lib target' % pkg)
+    return libs[0]['src_path'], libs[0].get('edition') or p0.get('edition') or '2015', p0['version'], p0.get('dependencies') or []
+
+
+def extract_dep(pkg):
+    """fact file of a dependency-free dependency crate of the current tree (the driver is run directly on its lib.rs);
+    returns (facts_path, info)"""
+    repo = repo_dir()
+    os.makedirs(CACHE, exist_ok=True)
+    lock = open(os.path.join(CACHE, 'lock'), 'w')
+    fcntl.flock(lock, fcntl.LOCK_EX)
+    try:
+        build_driver()
+        src, edition, version, deps = dep_source(repo, pkg)
+        if [d for d in deps if d.get('kind') in (None, 'normal') and not d.get('optional')]:
+            raise ExtractError('dependency %s has dependencies of its own: direct extraction is not supported' % pkg)
+        h = hashlib.sha256()
+        srcdir = os.path.dirname(src)
+        for f in sorted(glob.glob(os.path.join(srcdir, '**', '*.rs'), recursive=True)):
+            h.update(os.path.relpath(f, srcdir).encode() + b'\0')
+            with open(f, 'rb') as fh:
+                h.update(fh.read())
+        with open(os.path.join(DRIVER_DIR, 'src', 'main.rs'), 'rb') as fh:
+            h.update(fh.read())
+        hh = h.hexdigest()[:20]
+        crate = pkg.replace('-', '_')
+        out = os.path.join(CACHE, 'depfacts-%s-%s.json' % (crate, hh))
+        info = {'package': pkg, 'version': version, 'src': src, 'hash': hh, 'cached': True}
+        if os.path.exists(out) and os.path.getsize(out) > 1000:
+            return out, info
+        info['cached'] = False
+        import tempfile
+        tmpd = tempfile.mkdtemp(prefix='mirfacts-dep-')
+        try:
+            env = env_base()
+            env['LD_LIBRARY_PATH'] = os.path.join(sysroot(), 'lib') + ':' + env.get('LD_LIBRARY_PATH', '')
+            env['MIRFACTS_CRATE'] = crate
+            env['MIRFACTS_OUT'] = out + '.tmp'
+            cmd = [DRIVER, 'rustc', '--crate-name', crate, '--crate-type', 'lib', '--edition', edition, '--emit=metadata',
+                   '-Zmir-opt-level=0', '-Awarnings', '--cap-lints', 'allow', '--out-dir', tmpd, src]
+            r = subprocess.run(cmd, cwd=tmpd, env=env, stdout=subprocess.PIPE, stderr=subprocess.STDOUT, text=True)
+            if r.returncode != 0 or not os.path.exists(out + '.tmp'):
+                raise ExtractError('driver failed on dependency %s:\n%s' % (pkg, r.stdout[-3000:]))
+            os.replace(out + '.tmp', out)
+        finally:
+            shutil.rmtree(tmpd, ignore_errors=True)
+        return out, info
+    finally:
+        fcntl.flock(lock, fcntl.LOCK_UN)
+        lock.close()
+
+
 if __name__ == '__main__':
     cfg = sys.argv[1] if len(sys.argv) > 1 else 'default'
     p, info = extract(cfg)
